@@ -304,7 +304,9 @@ def prove_rules(repo, verif, gdir, ncpu=8):
     import subprocess
     from concurrent.futures import ThreadPoolExecutor
     defs, failed = translate(repo)
-    lib = open(os.path.join(verif, 'coq', 'theories', 'AletheGen.v')).read()
+    # everything the generated files import is part of the key: a changed library or hand-written model re-proves the rule
+    lib = ''.join(open(os.path.join(verif, 'coq', 'theories', f_)).read()
+                  for f_ in ('AletheGen.v', 'TruthTable.v', 'Alethe.v', 'AletheSound.v', 'Alethe2.v', 'AletheSimp.v'))
     cache = os.path.join(verif, 'work', 'gencache')
     os.makedirs(cache, exist_ok=True)
     os.makedirs(gdir, exist_ok=True)
